@@ -18,6 +18,15 @@ import (
 	"time"
 )
 
+// OutDir is where evidence/ and replays/ are written: /verif, unless QV_OUT_DIR redirects it
+// (used when seeded changes are tried, so that the committed evidence is not overwritten).
+func OutDir() string {
+	if d := os.Getenv("QV_OUT_DIR"); d != "" {
+		return d
+	}
+	return VerifDir()
+}
+
 // VerifDir is where evidence, replays and known findings live.
 func VerifDir() string {
 	if d := os.Getenv("QV_VERIF_DIR"); d != "" {
@@ -417,7 +426,7 @@ func RunDriver(p *Property, tier string, seed int64) int {
 	nViol := 0
 	if len(order) > 0 {
 		exit = 1
-		_ = os.MkdirAll(filepath.Join(VerifDir(), "replays"), 0o755)
+		_ = os.MkdirAll(filepath.Join(OutDir(), "replays"), 0o755)
 		for i, k := range order {
 			g := groups[k]
 			nViol += g.count
@@ -428,7 +437,7 @@ func RunDriver(p *Property, tier string, seed int64) int {
 				Key: g.first.Key, Msg: g.first.Msg, Desc: g.first.Desc, Stderr: g.first.Stderr,
 				How: fmt.Sprintf("cd %s && ./run.sh --replay <this file>   (re-generates case %d of stage %d from seed %d and re-runs the oracle verbosely)", VerifDir(), g.first.CaseNo, g.first.Stage, seed)}
 			name := fmt.Sprintf("%s-%016x.json", p.ID, Hash64(p.ID, tier, seed, g.first.Stage, g.first.CaseNo, g.first.Key))
-			path := filepath.Join(VerifDir(), "replays", name)
+			path := filepath.Join(OutDir(), "replays", name)
 			if err := WriteJSON(path, rp); err != nil {
 				fmt.Printf("warning: cannot write replay: %v\n", err)
 			}
@@ -492,8 +501,8 @@ func RunDriver(p *Property, tier string, seed int64) int {
 	if exit == 0 && len(inconclusive) > 0 {
 		ev["verdict"] = "inconclusive"
 	}
-	_ = os.MkdirAll(filepath.Join(VerifDir(), "evidence"), 0o755)
-	if err := WriteJSON(filepath.Join(VerifDir(), "evidence", p.ID+".json"), ev); err != nil {
+	_ = os.MkdirAll(filepath.Join(OutDir(), "evidence"), 0o755)
+	if err := WriteJSON(filepath.Join(OutDir(), "evidence", p.ID+".json"), ev); err != nil {
 		fmt.Printf("INCONCLUSIVE property=%s reason=cannot write evidence: %v\n", p.ID, err)
 		return 2
 	}
